@@ -346,6 +346,7 @@ type caseT struct {
 	req    *pb.EvaluateRequestProto
 	worlds []int         // nil: the small world only
 	alone  *pb.NodeProto // part (c): the malformed piece on its own
+	pos    int           // part (h): the position of the collection parameter
 }
 
 type space struct {
@@ -491,6 +492,9 @@ func (s *space) Run(i int64) kit.Result {
 		r.AddOutcome(c.part + ":" + outcome)
 		if reached {
 			r.Nontrivial = true
+		}
+		if c.part == "h" && os.Getenv("C23_HSTATS") != "" {
+			r.Count(fmt.Sprintf("hstats:%s/%d reached=%v", c.name, c.pos, reached), 1)
 		}
 		for _, f := range fails {
 			class := attribute(c, f, w)
@@ -748,8 +752,23 @@ func main() {
 	if err := os.MkdirAll("/tmp/c23-cwd", 0o755); err == nil {
 		os.Chdir("/tmp/c23-cwd")
 	}
+	// debugging aids: C23_LIST=1 lists part (h); C23_FIND=<substring> evaluates
+	// (api.Evaluate path) the first 20 quick-tier cases whose description contains it
 	if os.Getenv("C23_LIST") != "" {
 		listCollectionParams()
+		return
+	}
+	if sub := os.Getenv("C23_FIND"); sub != "" {
+		sp, _ := build("quick")
+		s := sp.(*space)
+		for i, n := int64(0), 0; i < s.Len() && n < 20; i++ {
+			if c := s.caseAt(i); strings.Contains(c.what, sub) {
+				rt, _ := roundTrip(c.req)
+				o := pathA(c.what, rt, 0)
+				fmt.Fprintf(os.Stderr, "case %d [%s] %s\n  -> %s %s %s\n", i, c.part, c.what, o.outcome, o.class, o.errText)
+				n++
+			}
+		}
 		return
 	}
 	kit.Main(&kit.Check{
@@ -757,7 +776,7 @@ func main() {
 		Level: "exploration",
 		Rule: "A case is one request: (a) a call of a registered function with one argument tuple from the product of its per-parameter menus of client-sendable expression snippets (values assignable/convertible to the parameter type incl. empty collections, negative/zero counts, absent and invalid ids, lambdas of wrong arity, plus two ill-typed snippets), plus one-too-few/one-too-many arguments and curried forms; " +
 			"(b) f(..g(args)..) for every (f, parameter, g) whose result category fits the parameter; (c) malformed NodeProto/EvaluateRequestProto messages in root/argument/function/lambda-body/collection positions; " +
-			"(h) for every (function, parameter) whose parameter accepts a collection (typed, untyped or interface{}): a heterogeneous collection of 2 or 3 elements in that position — the first element is (key kind, value kind) over the element kinds (int, float, string, feature id, tag, point, feature, nil, collection, pair; thorough also bool, path, area, query, callable, change), elements other than the odd one repeat those kinds with other values, and the odd element (the second of 2, the last of 3, thorough also the middle of 3) differs in the kind of its key or of its value, over every other kind — sent as a call (collection (pair k v)..) and as a collection literal; the other arguments all plain / all edge (thorough: every plain/edge combination) and every callable argument over its whole menu (native functions, lambdas, partial applications). " +
+			"(h) for every (function, parameter) whose parameter accepts a collection (typed, untyped or interface{}): a heterogeneous collection of 2 or 3 elements in that position — the first element is (key kind, value kind) over the element kinds (int, float, string, feature id, tag, point, feature, nil, collection, pair; thorough also bool, path, area, query, callable, change), elements other than the odd one repeat those kinds with other values, and the odd element (the second of 2, the last of 3, thorough also the middle of 3) differs in the kind of its key or of its value, over every other kind — sent as a call (collection (pair k v)..) and as a collection literal; the other arguments all plain / all edge (thorough: every plain/edge combination; plain for a parameter declared as a collection, relation or area id is the id of that type) and every callable argument over its whole menu (native functions, lambdas, partial applications). " +
 			"Every request is marshalled and unmarshalled (only wire-expressible messages reach the server), then evaluated by api.Evaluate with full recursive consumption of the result and by the in-process gRPC service. " +
 			"Non-trivial: the request got past symbol resolution and argument conversion (a value, or an error raised by the function body). Oracle: value or error; panic/crash/hang is a violation classified <function>:<panic site>.",
 		Assumptions: []string{
